@@ -1,9 +1,46 @@
 //! C12 - arithmetic, aggregation and boolean kernels are exact or report overflow.
 use vcore::{Ctx, Level, Stats};
 
+/// evidence sub-engine name prefix -> module group (for `--only=` and replays)
+const SUB_MODULES: [(&str, &str); 16] = [
+    ("int", "ints"),
+    ("uint", "ints"),
+    ("duration", "ints"),
+    ("float", "ints"),
+    ("decimal", "dec"),
+    ("native", "native"),
+    ("i256", "native"),
+    ("interval-structs", "native"),
+    ("timestamp", "temporal"),
+    ("date", "temporal"),
+    ("interval-kernels", "temporal"),
+    ("null-patterns", "nulls"),
+    ("aggregates", "agg"),
+    ("kleene", "kleene"),
+    ("bitwise", "kleene"),
+    ("fixed-point", "fixed"),
+];
+
 pub fn run(ctx: &Ctx) -> ! {
     let mut st = Stats::new();
-    let only: Option<String> = ctx.extra_args.iter().find_map(|a| a.strip_prefix("--only=").map(|s| s.to_string()));
+    let mut only: Option<String> = ctx.extra_args.iter().find_map(|a| a.strip_prefix("--only=").map(|s| s.to_string()));
+    let mut replay_fp: Option<String> = None;
+    if let Some(case) = vcore::load_replay(ctx) {
+        println!("replay case: {case}");
+        if let Some(code) = crate::replay::replay(&case) {
+            std::process::exit(code);
+        }
+        // other sub-engines: re-run the sub-engine that produced the case and report whether its class shows up again
+        let sub = case["sub"].as_str().unwrap_or("");
+        let module = SUB_MODULES.iter().find(|(p, _)| sub.starts_with(p)).map(|x| x.1);
+        let Some(module) = module else {
+            eprintln!("MACHINERY: replay file names unknown sub-engine {sub:?}");
+            std::process::exit(2)
+        };
+        println!("replay: re-running sub-engine group `{module}` (case descriptor above identifies the input)");
+        only = Some(module.to_string());
+        replay_fp = Some(std::fs::read_to_string(ctx.replay.as_ref().unwrap()).ok().and_then(|t| vcore::serde_json::from_str::<vcore::serde_json::Value>(&t).ok()).and_then(|v| v["fingerprint"].as_str().map(|s| s.to_string())).unwrap_or_default());
+    }
     let want = |name: &str| only.as_deref().map(|o| o.split(',').any(|x| x == name)).unwrap_or(true);
     let timing = ctx.has_flag("--timing");
     let mut lap = std::time::Instant::now();
@@ -19,13 +56,53 @@ pub fn run(ctx: &Ctx) -> ! {
     if want("dec") {
         crate::dec::run(ctx, &mut st, &mut tick);
     }
+    if want("fixed") {
+        crate::fixed::run(ctx, &mut st, &mut tick);
+    }
+    if want("native") {
+        crate::native::run(ctx, &mut st, &mut tick);
+    }
+    if want("temporal") {
+        crate::temporal::run(ctx, &mut st, &mut tick);
+    }
+    if want("nulls") {
+        crate::nulls::run(ctx, &mut st, &mut tick);
+    }
+    if want("agg") {
+        crate::agg::run(ctx, &mut st, &mut tick);
+    }
+    if want("kleene") {
+        crate::kleene::run(ctx, &mut st, &mut tick);
+    }
+    if let Some(fp) = replay_fp {
+        let hit: Vec<_> = st.violations.iter().filter(|v| v.fingerprint == fp).collect();
+        match hit.first() {
+            Some(v) => {
+                println!("replay outcome: violation class {fp} reproduced ({} occurrences)", st.viol_counts.get(&fp).copied().unwrap_or(0));
+                println!("  first: {}", v.message);
+                println!("  case: {}", v.case);
+                std::process::exit(1)
+            }
+            None => {
+                println!("replay outcome: class {fp} did not occur");
+                std::process::exit(0)
+            }
+        }
+    }
     vcore::finish(
         ctx,
         Level {
             category: "exploration",
-            rule: "cases are enumerated, never sampled".into(),
-            assumptions: vec![],
-            exhaustive_space: "".into(),
+            rule: "cases are enumerated, never sampled. One evaluation = one (kernel, types, physical form, slice offset, operand pair) element result compared with the exact reference (element-wise engines), one (aggregate bundle, type, length, offset, validity family, poison kind, poison position) array (aggregate engines), or one (operator bundle, left column, right column, bit offsets, buffer presence) pair (boolean engines); all enumerated cases are distinct by construction (mixed-radix decoding of the case index). A case is non-trivial when no operand is zero (element-wise), when the array has more than one slot and at least one non-null value (aggregates), or when at least one null is involved (boolean / null engines). Checked kernels abort an array on the first error, therefore Ok-expected pairs are packed into one call and every other pair is executed in a call of its own, so every pair's outcome is determined individually.".into(),
+            assumptions: vec![
+                "integer reference: exact arithmetic in i128 for widths <= 64 bit and num-bigint beyond (Decimal128/256, i128, i256); wrapping = reference mod 2^w; MIN % -1 == 0 for the rem kernel as documented".into(),
+                "decimals: result (precision, scale) per the rules stated in decimal_op (Hive rules; div: scale min(s1+4, max), truncation toward zero; rem: scale max(s1,s2)); Ok is demanded when both operands are within their declared precision and the exact result is within the result precision; an exact result that only fits the physical type may be Ok(exact) or Err; an unrepresentable result must be Err".into(),
+                "temporal: independent proleptic Gregorian model; Ok is demanded while all inputs/intermediates/results stay within the years -262000..=262000 (chrono spans -262143..=262142); Err is demanded when the exact result does not fit the physical type; otherwise a successful call must return the exact value. Only fixed-offset time zones (None, +00:00, +05:30, -08:00)".into(),
+                "floats: same IEEE-754 operation on the host (f16: computed in f64 and rounded once), compared by bits, NaN by class; float sums/products only on contents whose result is independent of association".into(),
+                "sum_checked/product_checked: Err is accepted when a partial reduction (in index order) overflows although the total fits; min/max on floats follow IEEE totalOrder, with a negative-sign NaN present the reading of the min/max docs (NaN greatest) is accepted as well".into(),
+                "Interval(MonthDayNano) * / Float64 with non-integral factors (floating point recipe without exact reference) is not covered; shifts by amounts outside 0..bits are not pinned".into(),
+            ],
+            exhaustive_space: "8-bit: all 65,536 operand pairs x {add,sub,mul,div,rem,add_wrapping,sub_wrapping,mul_wrapping} x {array-array, array-scalar, scalar-array} x 2 offsets for Int8/UInt8, all 256 values for neg; 16-bit: all 65,536 values x a 45-value boundary set in both orders and all forms (thorough: the full 16x16 square for add/sub/mul and wrapping forms); Float16: all 65,536 bit patterns x 40 boundary values; wider types: boundary lattice B x B; nulls: all {valid,null}^n, n<=3, on both operands; boolean: all {T,F,N0,N1}^n x same, n<=3, all value bit offsets 0..=9 on both sides; aggregates: all listed lengths x offsets x validity families x every poison position in the first/last 64 slots".into(),
         },
         st,
     )
